@@ -541,6 +541,39 @@ func (x *Exec) errorsIs(c *frame, err, target Iface) Value {
 func (x *Exec) uf(name string, outBits int, args [][]*Term) []*Term {
 	ps := x.ps
 	var out []*Term
+	// syntactically identical application: reuse the outputs (and mirror them on
+	// the tape, because the native UF reads its outputs for every call)
+	for _, prev := range x.ufApps[name] {
+		if len(prev.args) != len(args) || (outBits == 1) != (len(prev.out) == 1 && prev.out[0].w == 64) {
+			continue
+		}
+		if outBits != 1 && len(prev.out) != outBits/8 {
+			continue
+		}
+		same := true
+		for i := range args {
+			if len(args[i]) != len(prev.args[i]) {
+				same = false
+				break
+			}
+			for j := range args[i] {
+				a, b := args[i][j], prev.args[i][j]
+				if a != b && !(a.isConst() && b.isConst() && a.k == b.k) {
+					same = false
+					break
+				}
+			}
+			if !same {
+				break
+			}
+		}
+		if same {
+			for _, o := range prev.out {
+				ps.inputs = append(ps.inputs, inputRec{label: "uf:" + name, t: o})
+			}
+			return prev.out
+		}
+	}
 	if outBits == 1 {
 		out = []*Term{ps.input("uf:"+name, 64)}
 	} else {
